@@ -123,3 +123,35 @@ Proof.
   intros r h segments ph c E Ec Hc Hs Hr Hh. unfold cylinder in E. rewrite Ec in E.
   apply (C04_linear_extrude_outward c h ph E Hc Hh). exact (circle_clockwise r segments c Hs Hr Ec).
 Qed.
+
+(* ---- the exact form for the many-ring builders: every directed edge is used by at most one face and by exactly as many
+        faces as its reverse -- rotate_extrude for every angle and segment count (two caps or closing ring), sweep for every
+        open path and every closed path of at least three points, profiles of at least three points ---- *)
+From SCAD Require Import Geom.Mesh_exact2.
+Theorem C04_rotate_extrude_exact {T} `{Num T} : forall (profile : list (pt2 T)) (degrees : T) (segments : Z) ph,
+  rotate_extrude profile degrees segments = Some ph ->
+  complete (enumerate profile) -> complete (rev (enumerate profile)) ->
+  forall u v, (mcnt u v (snd ph) <= 1)%nat /\ mcnt u v (snd ph) = mcnt v u (snd ph).
+Proof. exact (@rotate_extrude_closed_exact T H). Qed.
+Theorem C04_sweep_exact {T} `{Num T} : forall (profile : list (pt2 T)) (path : list (pt3 T)) (twist : T) (closed : bool) ph,
+  sweep profile path twist closed = Some ph -> (3 <= length profile)%nat -> (closed = true -> (3 <= length path)%nat) ->
+  (closed = false -> complete (rev (enumerate profile)) /\
+                     complete (enumerate (map (project (sweep_end_normal path)) (sweep_last_points profile path twist closed)))) ->
+  forall u v, (mcnt u v (snd ph) <= 1)%nat /\ mcnt u v (snd ph) = mcnt v u (snd ph).
+Proof. exact (@sweep_closed_exact T H). Qed.
+(* a chain of strips over rings arranged like the links of a chain (each ring at most once a source and at most once a
+   target, no two links between the same two rings) uses every directed edge at most once *)
+Theorem C04_chain_exact : forall u v (k : nat) (P : list (Z * Z)), (3 <= k)%nat -> good_chain P -> (mcnt u v (chain_faces k P) <= 1)%nat.
+Proof. intros u v k P Hk Hg. exact (proj1 (chain_cnt u v k P Hk Hg)). Qed.
+
+(* ---- every cylinder, with no hypothesis on the caps (real reading): the circle outline is strictly convex, so ear clipping
+        completes on it (Geom/Tri_convex.v); the mesh is exactly closed and, for positive height, outward ---- *)
+From SCAD Require Import Geom.Tri_convex.
+Theorem C04_every_cylinder : forall (r h : R) (segments : Z) ph, cylinder r h segments = Some ph -> r <> 0%R ->
+  (forall u v, (mcnt u v (snd ph) <= 1)%nat /\ mcnt u v (snd ph) = mcnt v u (snd ph)) /\ ((0 < h)%R -> (vol6 (fst ph) (snd ph) < 0)%R).
+Proof. exact cylinder_unconditional. Qed.
+(* the index list of a thread mesh refers to its own 4 * steps vertices *)
+Theorem C04_thread_indices_in_range {T} `{Num T} : forall (d_min d_maj pitch length : T) (segments : Z) (li lo : T) (left : bool),
+  let ns := mesh_steps d_min d_maj pitch length segments in (1 <= ns)%Z ->
+  Forall (fun i => (0 <= i < 4 * ns)%Z) (snd (thread_mesh d_min d_maj pitch length segments li lo left)).
+Proof. exact (@thread_mesh_indices_in_range T H). Qed.
